@@ -20,7 +20,7 @@ var c05Defs = map[string]string{
 	"@q": "{\n\t\"r\": @p // {optional: true}\n}",
 }
 var c05Refs = map[string][]string{"@s": nil, "@o": nil, "@p": {"@s"}, "@q": {"@p"}}
-var c05Extras = map[string]string{"@z1": `1`, "@z2": "{\n\t\"zz\": \"a\"\n}"}
+var c05Extras = map[string]string{"@z1": `1`, "@z2": "{\n\t\"zz\": \"a\"\n}", "@z3": `1 // {or: [{type: "integer", min: 0}, {type: "boolean"}]}`}
 
 // c05Site: one reference site = a value text (single element, possibly with an
 // annotation) and the names it mentions.
@@ -219,7 +219,7 @@ func c05Case(w *core.W, r c05Root, reg []string) {
 		}
 	}
 	// (3) unreferenced valid types change nothing
-	for _, extras := range [][]string{{"@z1"}, {"@z1", "@z2"}} {
+	for _, extras := range [][]string{{"@z1"}, {"@z1", "@z2"}, {"@z3"}} {
 		o, _ := observe(c05Project(r, reg, extras))
 		same := o.Code == base.Code && o.Used == base.Used && o.Len == base.Len
 		if base.Code == 0 {
